@@ -37,7 +37,11 @@ def gen_set(rng):
             u = rng.choice(UNITS)
             vals.append((gen_number(rng), u if (u or rng.random() < 0.1) else None))
         elif k == 4:
-            vals.append((bytes(rng.choice(PLAIN) for _ in range(rng.randint(0, 20))), None))
+            v = bytearray(rng.choice(PLAIN) for _ in range(rng.randint(0, 20)))
+            if v and rng.random() < 0.3:       # blanks inside a value ("HELLO WORLD", "21-02-22 16:19:00", " 12.5"): verbatim too
+                for _ in range(rng.choice([1, 1, 2])):
+                    v[rng.randrange(len(v))] = rng.choice(b"  \t")
+            vals.append((bytes(v), None))
         else:
             vals.append((bytes(rng.choice(b"0123456789ABCDEF") for _ in range(rng.choice([8, 16, 32]))), None))
     return addr, vals
